@@ -35,6 +35,7 @@ type FuncContract struct {
 	results  []string
 	requires []*clause
 	ensures  []*clause
+	hints    []*clause // replay preferences: not facts, only used to pick a model
 	panics   string // "", "never", "may"
 	assigns  []string
 	loopInvs map[int][]*clause
@@ -66,6 +67,7 @@ type SpecFunc struct {
 	rsort  string
 	body   ast.Expr
 	rec    bool
+	abstract bool
 	text   string
 }
 
@@ -79,7 +81,17 @@ type Lemma struct {
 	props []string
 }
 
+type TypeInv struct {
+	pkg   *packages.Package
+	typ   types.Type
+	name  string
+	param string
+	body  ast.Expr
+	text  string
+}
+
 type Contracts struct {
+	invs   []*TypeInv
 	funcs  map[string]*FuncContract
 	fields map[string]*FuncContract
 	specs  map[string]*SpecFunc
@@ -105,7 +117,8 @@ func (c *Contracts) fieldContract(key string) *FuncContract {
 var headRE = regexp.MustCompile(`^func\s+(\S+?)\s*\(([^)]*)\)\s*(?:\(([^)]*)\))?\s*$`)
 var fieldRE = regexp.MustCompile(`^field\s+(\S+)\s*\(([^)]*)\)\s*(?:\(([^)]*)\))?\s*$`)
 var specRE = regexp.MustCompile(`^spec\s+(rec\s+)?(\w+)\s*\(([^)]*)\)\s*(\S+)\s*=\s*(.*)$`)
-var tagRE = regexp.MustCompile(`\s*@(C\d+(?:,C\d+)*)\s*$`)
+var abstractRE = regexp.MustCompile(`^spec\s+abstract\s+(\w+)\s*\(([^)]*)\)\s*(\S+)\s*$`)
+var tagRE = regexp.MustCompile(`\s*@((?:C\d+|assume)(?:,(?:C\d+|assume))*)\s*$`)
 
 func splitNames(s string) []string {
 	var out []string
@@ -151,7 +164,7 @@ func (cs *Contracts) parseFile(p *packages.Package, file string) {
 		line int
 	}
 	var raws []raw
-	kw := regexp.MustCompile(`^(func|field|spec|lemma|requires|ensures|panics|assigns|loop|tco|pure|trusted|inline|hyp|goal|props)\b`)
+	kw := regexp.MustCompile(`^(invariant|func|field|spec|lemma|requires|ensures|hint|panics|assigns|loop|tco|pure|trusted|inline|hyp|goal|props)\b`)
 	for i, ln := range strings.Split(string(data), "\n") {
 		t := strings.TrimSpace(ln)
 		if !strings.HasPrefix(t, "//@") {
@@ -222,6 +235,22 @@ func (cs *Contracts) parseFile(p *packages.Package, file string) {
 			cs.fields[m[1]] = cur
 			curLemma = nil
 		case "spec":
+			if am := abstractRE.FindStringSubmatch(t); am != nil {
+				sf := &SpecFunc{pkg: p, name: am[1], rec: true, abstract: true, text: t}
+				for _, pd := range splitNames(am[2]) {
+					fs := strings.Fields(pd)
+					if len(fs) != 2 {
+						cs.errf(file, r.line, "bad spec parameter %q", pd)
+						continue
+					}
+					sf.params = append(sf.params, fs[0])
+					sf.ptypes = append(sf.ptypes, cs.resolveType(p, fs[1], file, r.line))
+				}
+				sf.rtype = cs.resolveType(p, am[3], file, r.line)
+				cs.specs[sf.name] = sf
+				cur, curLemma = nil, nil
+				continue
+			}
 			m := specRE.FindStringSubmatch(t)
 			if m == nil {
 				cs.errf(file, r.line, "bad spec %q", t)
@@ -242,6 +271,18 @@ func (cs *Contracts) parseFile(p *packages.Package, file string) {
 				sf.body = c.expr
 			}
 			cs.specs[sf.name] = sf
+			cur, curLemma = nil, nil
+		case "invariant":
+			// invariant TypeName(x) = expr
+			im := regexp.MustCompile("^invariant\\s+([\\w.*]+|`[^`]+`)\\s*\\((\\w+)\\)\\s*=\\s*(.*)$").FindStringSubmatch(t)
+			if im == nil {
+				cs.errf(file, r.line, "bad invariant %q", t)
+				continue
+			}
+			typ := cs.resolveType(p, strings.Trim(im[1], "`"), file, r.line)
+			if c := mkClause(im[3]); c != nil {
+				cs.invs = append(cs.invs, &TypeInv{pkg: p, typ: typ, name: im[1], param: im[2], body: c.expr, text: im[3]})
+			}
 			cur, curLemma = nil, nil
 		case "lemma":
 			// lemma name(x T, y T)
@@ -291,6 +332,10 @@ func (cs *Contracts) parseFile(p *packages.Package, file string) {
 			case "ensures":
 				if c := mkClause(rest); c != nil {
 					cur.ensures = append(cur.ensures, c)
+				}
+			case "hint":
+				if c := mkClause(rest); c != nil {
+					cur.hints = append(cur.hints, c)
 				}
 			case "panics":
 				cur.panics = rest
@@ -356,6 +401,19 @@ func (cs *Contracts) resolveType(p *packages.Package, src string, file string, l
 			if t := try(ip.Types); t != nil {
 				return t
 			}
+		}
+	}
+	if e, err := parser.ParseExpr(src); err == nil {
+		star := false
+		if se, ok := e.(*ast.StarExpr); ok {
+			star = true
+			e = se.X
+		}
+		if t := lookupTypeName(p, e); t != nil {
+			if star {
+				return types.NewPointer(t)
+			}
+			return t
 		}
 	}
 	cs.errf(file, line, "cannot resolve type %q", src)
